@@ -175,6 +175,19 @@ LenOK(l, n, D) ==
   /\ n >= l.min
   /\ l.max = -1 \/ ("ZeroMaxIgnored" \in D /\ l.max = 0) \/ n <= l.max
 
+(* ---------- enum carrier (pkg/generator/schema_generator.go generateEnumType) ---------- *)
+KindOf(d) == CASE d.t = "str" -> "string" [] d.t = "num" -> "float64" [] d.t = "bool" -> "bool" [] OTHER -> "iface"
+
+Carrier(s) ==
+  IF Len(Types(s)) = 1 THEN
+       CASE s.type[1] = "string" -> "string" [] s.type[1] = "integer" -> "int" [] s.type[1] = "number" -> "float64"
+         [] s.type[1] = "boolean" -> "bool" [] OTHER -> "iface"
+  ELSE LET ks == {KindOf(s.enum[i]) : i \in DOMAIN s.enum} IN
+       IF Cardinality(ks) = 1 THEN CHOOSE k \in ks : TRUE ELSE "iface"
+
+\* the value `var v <carrier>` holds after json.Unmarshal of a JSON null
+CarrierZero(c) == CASE c = "string" -> JStr(<<>>) [] c = "bool" -> JBool(FALSE) [] c = "iface" -> JNull [] OTHER -> JNum(0)
+
 (* ---------- validity ---------- *)
 \* ctx: "field" at a struct-field position (property of an object), "decl" when the schema is reached
 \* as a declared type (definition or root), "elem" for array items of a declared array.
@@ -182,6 +195,8 @@ LenOK(l, n, D) ==
 \* schema s (no generated unmarshaler runs: no required / bounds / length checks) -- used by deviation
 \* "DeclaredArrayElemUnvalidated": object items of a DECLARED array type become an anonymous struct.
 RECURSIVE TypedOnly(_, _, _, _)
+\* keys of the unit families that differ from a declared property name only by case
+FoldsTo(k) == CASE k = "MY_FIELD" -> "my_field" [] OTHER -> k
 RECURSIVE Valid(_, _, _, _, _, _)
 TypedOnly(env, s, d, D) ==
   IF d.t = "null" THEN TRUE
@@ -281,16 +296,23 @@ ValidObj(env, s, d, D) ==
       \* called with null and rejects it (the zero value is not a listed value)
       propsOK == {LET ps == PropSchema(s, k)  v == ObjVal(d, k) IN
                   IF v.t = "null" /\ Has(ps, "default") THEN
-                       (IF "EnumNullDefault" \in D /\ Has(ResolveB(env, ps), "enum") THEN Rej ELSE Acc)
+                       (IF "EnumNullDefault" \in D /\ Has(ResolveB(env, ps), "enum")
+                           /\ ~EnumOK(ResolveB(env, ps), CarrierZero(Carrier(ResolveB(env, ps)))) THEN Rej ELSE Acc)
                   ELSE Valid(env, ps, v, D, "field", NoLim)
                     : k \in PropNames(s) \cap ObjKeys(d)}
       extra == ObjKeys(d) \ PropNames(s)
+      \* deviation "CaseInsensitiveKeyBinding": encoding/json also binds a key that differs from a declared
+      \* name only by case to that field, so its value is decoded (and type-checked) as that property
+      foldOK == IF "CaseInsensitiveKeyBinding" \in D
+                THEN {Valid(env, PropSchema(s, FoldsTo(k)), ObjVal(d, k), D, "field", NoLim)
+                        : k \in {e \in extra : FoldsTo(e) \in PropNames(s)}}
+                ELSE {}
       addl == IF Has(s, "additionalProperties") THEN s.additionalProperties ELSE [k |-> "b", b |-> TRUE]
       extraOK == CASE addl.k = "b" -> IF extra = {} \/ addl.b THEN {Acc} ELSE {Un}
                    \* additionalProperties:false is not enforced by the tool and no listed property
                    \* demands it (C02 speaks only of objects that allow them) => unspecified
                    [] addl.k = "s" -> {Valid(env, addl.s, ObjVal(d, k), D, "addl", NoLim) : k \in extra}
-  IN And3({reqOK} \cup propsOK \cup extraOK)
+  IN And3({reqOK} \cup propsOK \cup extraOK \cup foldOK)
 
 (* ---------- decoded values (C02, C08, C09) ---------- *)
 \* "Empty" values are the ones Go's omitempty drops when marshalling
@@ -305,9 +327,21 @@ IsStruct(s) == Main(s) = "object" /\ Props(s) # <<>>
 \* under schema s -- every declared property value in the field bound to that exact name, array
 \* elements in order, enum values bare, defaults for absent/null properties, and exactly the
 \* undeclared keys in the additional-properties map.  d is assumed valid under s.
+\* Go field names of the property names used by the unit families (the general rule is spec/Names.tla)
+GoFieldName(k) == CASE k = "my_field" -> "MyField" [] k = "p" -> "P" [] k = "x" -> "X" [] k = "k" -> "K" [] OTHER -> "?"
 RECURSIVE Decoded(_, _, _, _, _)
+StripDefaults(s) ==
+  IF Has(s, "properties")
+  THEN [s EXCEPT !.properties = [i \in DOMAIN @ |-> [k |-> @[i].k, s |-> [f \in DOMAIN @[i].s \ {"default"} |-> @[i].s[f]]]]]
+  ELSE s
 Decoded(env, s, d, v, D) ==
-  IF Has(s, "ref") THEN (~EnvHas(env, s.ref.n) \/ Decoded(env, EnvGet(env, s.ref.n), d, v, D))
+  IF Has(s, "ref") THEN
+       (\/ ~EnvHas(env, s.ref.n)
+        \/ LET t == EnvGet(env, s.ref.n) IN
+           \* object items of a declared array are an anonymous struct: no unmarshaler, so no defaults
+           IF "DeclaredArrayElemUnvalidated" \in D /\ Main(t) = "array" /\ Has(t, "items")
+           THEN Decoded(env, [t EXCEPT !.items = StripDefaults(@)], d, v, D)
+           ELSE Decoded(env, t, d, v, D))
   ELSE IF d.t = "null" THEN TRUE
   ELSE IF Has(s, "enum") THEN JEq(v, d)
   ELSE IF Has(s, "allOf") \/ Has(s, "anyOf") THEN TRUE           \* judged by C11
@@ -316,7 +350,13 @@ Decoded(env, s, d, v, D) ==
        /\ \A k \in PropNames(s) :
              LET ps == PropSchema(s, k)
                  given == ObjHas(d, k) /\ ObjVal(d, k).t # "null"
-             IN IF given THEN ObjHas(v, k) /\ Decoded(env, ps, ObjVal(d, k), ObjVal(v, k), D)
+             IN IF given THEN
+                     /\ ObjHas(v, k)
+                     /\ \/ Decoded(env, ps, ObjVal(d, k), ObjVal(v, k), D)
+                        \* deviation CaseInsensitiveKeyBinding: a key differing only by case overwrites the field
+                        \/ /\ "CaseInsensitiveKeyBinding" \in D
+                           /\ \E k2 \in ObjKeys(d) \ PropNames(s) :
+                                 FoldsTo(k2) = k /\ Decoded(env, ps, ObjVal(d, k2), ObjVal(v, k), D)
                 ELSE IF Has(ps, "default") THEN
                        \* deviation "AddlMapDefaultDropped": defaultPropertyValue replaces the default of a
                        \* typed additional-properties map by an empty map
@@ -326,7 +366,17 @@ Decoded(env, s, d, v, D) ==
                        ELSE ObjHas(v, k) /\ JEq(ObjVal(v, k), ps.default)
                 ELSE TRUE
        /\ CollectsAddl(s) =>
-             LET extra == ObjKeys(d) \ PropNames(s) IN
+             \* deviation "AddlKeyEqualsFieldNameDropped": the generated code deletes st.Field(i).Name from the
+             \* raw map, so an undeclared key that equals the Go NAME of a declared field is lost
+             \* deviation "AddlEmptyKeyDropped": the AdditionalProperties field itself has no json tag, so
+             \* `delete(raw, "")` removes the key ""
+             \* deviation "UntypedAddlNotCollected": for additionalProperties true / {} (no type) no code fills
+             \* the field at all (and no unmarshaler is generated unless other validators exist)
+             LET untyped == s.additionalProperties.k = "b" \/ Types(s.additionalProperties.s) = <<>>
+                 extra == IF "UntypedAddlNotCollected" \in D /\ untyped THEN {}
+                          ELSE ((ObjKeys(d) \ PropNames(s)) \
+                                (IF "AddlKeyEqualsFieldNameDropped" \in D THEN {GoFieldName(k) : k \in PropNames(s)} ELSE {}))
+                               \ (IF "AddlEmptyKeyDropped" \in D THEN {""} ELSE {}) IN
              /\ ObjHas(v, "AdditionalProperties")
              /\ LET m == ObjVal(v, "AdditionalProperties") IN
                 IF extra = {} THEN m.t \in {"null", "obj"} /\ (m.t = "obj" => m.o = <<>>)
@@ -339,18 +389,23 @@ Decoded(env, s, d, v, D) ==
   ELSE JEq(v, d)
 
 \* Reproduced(env, s, d, o): the re-marshalled JSON o reproduces every non-empty declared value of d
-RECURSIVE Reproduced(_, _, _, _)
-Reproduced(env, s, d, o) ==
-  IF Has(s, "ref") THEN (~EnvHas(env, s.ref.n) \/ Reproduced(env, EnvGet(env, s.ref.n), d, o))
+RECURSIVE Reproduced(_, _, _, _, _)
+Reproduced(env, s, d, o, D) ==
+  IF Has(s, "ref") THEN (~EnvHas(env, s.ref.n) \/ Reproduced(env, EnvGet(env, s.ref.n), d, o, D))
   ELSE IF ~NonEmpty(d) THEN TRUE
   ELSE IF Has(s, "enum") THEN JEq(o, d)
   ELSE IF Has(s, "allOf") \/ Has(s, "anyOf") THEN TRUE
   ELSE IF IsStruct(s) THEN
        o.t = "obj" /\ \A k \in PropNames(s) \cap ObjKeys(d) :
-           NonEmpty(ObjVal(d, k)) => ObjHas(o, k) /\ Reproduced(env, PropSchema(s, k), ObjVal(d, k), ObjVal(o, k))
+           NonEmpty(ObjVal(d, k)) =>
+             /\ ObjHas(o, k)
+             /\ \/ Reproduced(env, PropSchema(s, k), ObjVal(d, k), ObjVal(o, k), D)
+                \/ /\ "CaseInsensitiveKeyBinding" \in D
+                   /\ \E k2 \in ObjKeys(d) \ PropNames(s) :
+                         FoldsTo(k2) = k /\ Reproduced(env, PropSchema(s, k), ObjVal(d, k2), ObjVal(o, k), D)
   ELSE IF Main(s) = "array" THEN
        o.t = "arr" /\ Len(o.a) = Len(d.a)
-       /\ \A i \in DOMAIN d.a : Reproduced(env, IF Has(s, "items") THEN s.items ELSE [type |-> <<>>], d.a[i], o.a[i])
+       /\ \A i \in DOMAIN d.a : Reproduced(env, IF Has(s, "items") THEN s.items ELSE [type |-> <<>>], d.a[i], o.a[i], D)
   ELSE JEq(o, d)
 
 =============================================================================
